@@ -17,6 +17,8 @@ import (
 //	ping       PINGREQ
 //	disconnect DISCONNECT packet
 //	close      the client drops the connection
+//	subclose   SUBSCRIBE (Filters) immediately followed by dropping the connection
+//	pubclose   QoS 1 PUBLISH immediately followed by dropping the connection
 //	idle       virtual time advances by IdleMs
 //	raw        Bytes are written as they are
 //	failnode   node Node fails; survivors are notified
@@ -248,6 +250,31 @@ func (w *World) Apply(st Step) (problem string, inconclusive bool) {
 		}
 		if !s.Displaced && !s.K.Has(SUBACK, id) {
 			return fmt.Sprintf("client %d: no SUBACK for %v", st.C, st.Filters), false
+		}
+	case "subclose", "pubclose":
+		// the client sends a SUBSCRIBE / a QoS 1 PUBLISH and drops the connection before reading
+		// the answer: the broker's SUBACK / PUBACK write fails
+		if s == nil || !s.Alive || s.Node.Down {
+			return "", false
+		}
+		id := s.nextPID
+		s.nextPID++
+		if st.Op == "subclose" {
+			s.K.Send(EncSubscribe(id, st.Filters, qosBytes(st.QoS)))
+		} else {
+			// the publish itself is accepted and delivered; only its acknowledgement is lost
+			w.modelPublish(w.mp(s), st.Topic, st.Payload, st.Retain, s.Node)
+			s.K.Send(EncPublish(st.Topic, []byte(st.Payload), 1, st.Retain, false, id))
+		}
+		s.K.Close()
+		if st.Op == "pubclose" {
+			// teardown may overtake the publish worker: the dying session can still be registered
+			// when its own publish is routed, or not; its own deliveries are not judged
+			s.Displaced = true
+		}
+		w.endSession(s, "close")
+		if !settle() {
+			return
 		}
 	case "unsub":
 		if s == nil || !s.Alive || s.Node.Down {
